@@ -6,7 +6,7 @@
     functions ([paths_of], [paths_to], [connected_components], ...) transcribe graph/*.go; panics
     and fuel exhaustion are the result values [Panic]/[Hang], so "returns [Ok]" includes
     termination of every loop and recursion of the model. *)
-From Algo.C14 Require Import Spec ProofsBasic ProofsTrav ProofsReach ProofsBfs ProofsScc ProofsCC ProofsSpt ProofsTopo ProofsCycle ProofsOrders ProofsMsf1 ProofsMsf2 ProofsDijkstra ProofsKosaraju ProofsKosaraju1 ProofsScc2 ProofsPrim1 ProofsPrim2 ProofsPrim3.
+From Algo.C14 Require Import Spec ProofsBasic ProofsTrav ProofsReach ProofsBfs ProofsScc ProofsCC ProofsSpt ProofsTopo ProofsCycle ProofsOrders ProofsMsf1 ProofsMsf2 ProofsDijkstra ProofsKosaraju ProofsKosaraju1 ProofsScc2 ProofsPrim1 ProofsPrim2 ProofsPrim3 ProofsPass.
 
 (** * The property at full strength *)
 Definition nonneg (es : list edge) : Prop := forall e, In e es -> (0 <= e_w e)%Z.
@@ -269,6 +269,19 @@ Theorem C14_check_topo_sound :
   forall g order, wf g -> check_topo g order = true -> topological_order g order.
 Proof. exact check_topo_sound. Qed.
 
+(** The model's Kosaraju and Prim outputs always pass the proved checkers (as Dijkstra's do:
+    [C14_dijkstra_passes_check]); so a "model output fails the checker" report of the driver can
+    only come from a broken model/extraction, never from a legitimate graph. *)
+Theorem C14_scc_passes_check :
+  forall n es, exists c, strongly_connected_components (mk_graph true n es) = Ok c /\
+                         check_scc (mk_graph true n es) (snd c) = true.
+Proof. exact scc_passes. Qed.
+
+Theorem C14_prim_passes_check :
+  forall n es, exists f, minimum_spanning_tree (mk_graph false n es) = Ok (f, weight_of f) /\
+                         check_msf (mk_graph false n es) f = true.
+Proof. exact prim_passes. Qed.
+
 (** * The property at full strength holds *)
 Theorem C14_full_holds : C14_full.
 Proof.
@@ -293,6 +306,8 @@ Example C14_example :
 Proof. vm_compute. split; reflexivity. Qed.
 
 Print Assumptions C14_full_holds.
+Print Assumptions C14_scc_passes_check.
+Print Assumptions C14_prim_passes_check.
 Print Assumptions C14_graph_edges.
 Print Assumptions C14_paths.
 Print Assumptions C14_paths_visited.
